@@ -367,6 +367,9 @@ def make_pool(rnd, tmp, k):
     for i in range(0, len(CACHE_BAIT), 2):
         if rnd.random() < .35:
             a.rules.insert(rnd.randint(0, len(a.rules)), R.Rule('Bait%d' % i, CACHE_BAIT[i] if 'extract(' not in CACHE_BAIT[i] and '.replace' not in CACHE_BAIT[i] else 'len(%s) > 0' % CACHE_BAIT[i], 'BaitCat%d' % i, 'x'))
+    if rnd.random() < .5:
+        # rules that read the transaction's location (for statements without a location column: whatever the reader derives for THAT row)
+        a.rules.insert(0, R.Rule('LocBait', rnd.choice(['txn.location == "HI"', 'txn.location != ""', 'field.location == "WA" or txn.location == "HI"']), 'LocCat', 'x', tags=['{txn.location}']))
     if rnd.random() < .6:
         e = rnd.choice(DATE_BAIT)
         a.rules.insert(rnd.randint(0, len(a.rules)), R.Rule('DateBait', rnd.choice(['contains("NETFLIX") and ', 'contains("UBER") and ', '']) + e, 'DateBaitCat', 'x'))
@@ -554,6 +557,8 @@ def run_sequence(rec, pool, pr, rnd, nops, tmp, fresh_rate):
                                                                                   {'memo': rnd.choice(_w.MEMOS).strip(), 'code': rnd.choice(_w.CODES).strip()}]))
                     else:
                         u = rnd.choice(pool['txns'])
+                    if rnd.random() < .3:
+                        u = dict(copy.deepcopy(u), description=(u.get('description') or 'SHOP').rstrip() + rnd.choice([' HI', ' WA', '  NY']))    # an earlier row that ends in a state code
                     if u.get('date') and (u.get('description') or '').strip() and u.get('amount') and '\n' not in u['description']:
                         earlier.append(u)
                 rec.count('rows_parsed_after_earlier_rows_of_the_same_file', 1 if earlier else 0)
